@@ -1,0 +1,8 @@
+//go:build !verif
+
+package ecs
+
+import "unsafe"
+
+// verifOnCopy is a no-op without build tag `verif`.
+func verifOnCopy(a *archetype, src, dst unsafe.Pointer, size uint32) {}
